@@ -688,8 +688,15 @@ impl Live {
 }
 
 
-/// how long `tick()` may stay pending before the session counts as idle (`s` lines)
-const IDLE_MS: u64 = 8;
+/// how long `tick()` may stay pending before the session is ASKED whether it is idle (`s` lines); it counts as idle only
+/// when, in addition, no octet is left unread in the kernel for its socket (`Live::unread`) - polled again otherwise,
+/// up to `IDLE_POLLS` times: a stalled machine delays the verdict, it cannot make a chunk look idle before it was read
+/// (audit r5 S8)
+const IDLE_MS: u64 = 4;
+const IDLE_POLLS: usize = 2500;
+/// a run of an `s` line that took longer than this on the wall clock is repeated (the shortest timer of a session is the
+/// KeepaliveTimer of a 3 s hold time: 1 s; a tick of it inside the run is no answer to the peer's octets)
+const SLOW_RUN_MS: u128 = 600;
 
 impl Live {
     fn peer_write(&mut self, b: &[u8]) {
@@ -699,6 +706,15 @@ impl Live {
     fn peer_close(&mut self) {
         let peer = &mut self.peer;
         with_rt_of(self.real, |r| r.rt.block_on(async { use tokio::io::AsyncWriteExt; let _ = peer.shutdown().await; }));
+    }
+    /// are there octets the peer wrote that the session has not read from the kernel yet?  (`_wr` is the write half of the
+    /// session's own socket: a `peek` on it sees what `read_buf` will see; it consumes nothing)
+    fn unread(&mut self) -> bool {
+        let sock: &tokio::net::TcpStream = self._wr.as_ref();
+        with_rt_of(self.real, |r| r.rt.block_on(async {
+            let mut b = [0u8; 1];
+            matches!(tokio::time::timeout(std::time::Duration::from_millis(0), sock.peek(&mut b)).await, Ok(Ok(n)) if n > 0)
+        }))
     }
     /// one `Session::tick()`; `None` when it stays pending for `ms` milliseconds (the pending call is dropped)
     fn tick_idle(&mut self, ms: u64) -> Option<Out> {
@@ -745,10 +761,16 @@ fn run_sess_once(l: &SessLine, lens: &[usize]) -> Vec<Out> {
         if !live.has_conn() { over = true; break; }
         live.peer_write(&l.stream[off..off + n]);
         off += n;
-        for _ in 0..400 {
+        let mut polls = 0;
+        let mut ticks = 0;
+        while ticks < 400 {
             match live.tick_idle(IDLE_MS) {
-                None => continue 'chunks,
+                None => {
+                    if polls < IDLE_POLLS && live.has_conn() && live.unread() { polls += 1; continue; }
+                    continue 'chunks;
+                }
                 Some(o) => {
+                    ticks += 1;
                     let stop = match &o { Out::Rec(r) => !r.ok || !r.conn, _ => true };
                     v.push(o);
                     if stop { over = true; break 'chunks; }
@@ -764,9 +786,20 @@ fn run_sess_once(l: &SessLine, lens: &[usize]) -> Vec<Out> {
     v
 }
 
+/// `run_sess_once`, repeated (at most twice) when the machine was too slow for the run to be free of timer ticks
+fn run_sess_steady(l: &SessLine, lens: &[usize]) -> Vec<Out> {
+    let mut v = Vec::new();
+    for _ in 0..3 {
+        let t0 = std::time::Instant::now();
+        v = run_sess_once(l, lens);
+        if t0.elapsed().as_millis() < SLOW_RUN_MS || v.iter().any(|o| matches!(o, Out::Hang)) { break; }
+    }
+    v
+}
+
 pub fn run_sess(l: &SessLine) -> String {
-    let chunked = run_sess_once(l, &l.lens);
-    let same = l.lens.len() == 1 || run_sess_once(l, &[l.stream.len()]) == chunked;
+    let chunked = run_sess_steady(l, &l.lens);
+    let same = l.lens.len() == 1 || run_sess_steady(l, &[l.stream.len()]) == chunked;
     format!("{} ## same={}", if chunked.is_empty() { "-".to_string() } else { show_outs(&chunked) }, same as u8)
 }
 
@@ -890,13 +923,8 @@ pub fn parse_line(line: &str) -> Option<(Cfg, Init, Vec<Step>)> {
     let init = Init::parse(w[2])?;
     let mut steps = Vec::new();
     for t in &w[3..] { steps.push(Step::parse(t)?); }
-    // attaching a stream waits for the socket: the paused clock could jump meanwhile
-    // un-polled time stays below two hold intervals (the hold timer never has two ticks outstanding when it is reset)
-    // (every `T` also lets time pass without necessarily taking the hold timer's tick: at most one keepalive interval,
-    // hold/3, at least 1 s - counted too since a thorough-tier line `h ..h3 .. mK T T W3 W1 mU:1 T` showed a stale hold
-    // tick after the reset: 2 s of `T` + 4 s of `W` = two hold times since the hold timer was armed)
-    let wsum: u64 = steps.iter().map(|s| match s { Step::Wait(d) => *d as u64, Step::Timer => std::cmp::max(1, cfg.h as u64 / 3), _ => 0 }).sum();
-    if cfg.h != 0 && wsum >= 2 * cfg.h as u64 { return None; }
+    // (lines on which the hold timer is reset while two of its ticks are outstanding are refused after the run: `exec`,
+    // `reset_with_two_ticks`)
     // raw octets never make `parse_frame` decide: after every `pB` the octets written so far are fewer than 18, or carry a
     // length field >= 19 that announces more than is there; with a second connection on the line at most 17 in all; <= 5 steps
     let mut acc: Vec<u8> = vec![];
@@ -910,6 +938,38 @@ pub fn parse_line(line: &str) -> Option<(Cfg, Init, Vec<Step>)> {
         }
     }
     Some((cfg, init, steps))
+}
+
+/// The one situation in which the session's hold timer leaves the precondition of property C20 in a way that the timed
+/// `h` lines cannot express: `hold_timer.reset()` (KEEPALIVE in OpenConfirm / Established, UPDATE in Established) at a moment
+/// when TWO hold times or more have passed since the timer was last armed (started when the OPEN was accepted - or at time
+/// 0 for a forced initial state -, or reset).  Two of its ticks are outstanding then: one in the timer's channel, which
+/// `reset()` discards, one in the timer task's blocked `send`, which completes right after and is handed out by the next
+/// `tick()` - a HoldTimer_Expires immediately after the peer was heard.  The model's clock has no such tick; such a line
+/// is `bad-op` on both sides (the driver decides it from the model's hold deadline, `Rc.Fsm.staleInput`; this function
+/// from the arming instants it books itself from the records: states, running flags and the ` @<s>` of the timed steps).
+/// A hold tick that is taken in OpenConfirm / Established ends the session (the timer is stopped), so inside these two
+/// states "armed" is always the last start / reset.
+fn reset_with_two_ticks(cfg: &Cfg, init: &Init, steps: &[Step], outs: &[Out]) -> bool {
+    if cfg.h == 0 { return false; }
+    let h = cfg.h as u64;
+    let (mut now, mut st, mut dop, mut running) = (0u64, init.st, init.dop, init.hold);
+    let mut armed: Option<u64> = if init.hold { Some(0) } else { None };
+    for (step, out) in steps.iter().zip(outs.iter()) {
+        let r = match out { Out::Rec(r) => r, _ => return false };
+        let ev = rfc_event(step, dop, cfg.p);
+        let resets = running && ((matches!(st, 5 | 6) && ev == Some(26)) || (st == 6 && ev == Some(27)));
+        if resets {
+            if let Some(a) = armed { if now >= a + 2 * h { return true; } }
+            armed = Some(now);
+        }
+        if let Some(t) = r.at { now = t; }
+        // `start()`: the timer begins to run, or an OPEN is accepted while it runs already (second connection)
+        if r.hold && (!running || (r.st == 5 && st != 5)) { armed = Some(now); }
+        if !r.hold { armed = None; }
+        st = r.st; dop = r.dop; running = r.hold;
+    }
+    false
 }
 
 fn show_line(cfg: &Cfg, init: &Init, steps: &[Step]) -> String {
@@ -1452,6 +1512,26 @@ impl Prop for C08 {
                 v.push(show_line(&cfg, &FRESH, &steps));
             }
         }
+        // long-lived sessions (timed lines, see (1c)): the peer is heard from again and again while many hold times pass on the line (the hold
+        // timer is re-armed each time; un-polled stretches of up to two hold times and a little more: a reset with two
+        // hold-timer ticks outstanding makes the line `bad-op` on both sides, `reset_with_two_ticks`), `T` in between
+        for i in 0..(if tier == Tier::Thorough { 2000 } else { 100 }) {
+            let h = *rng.pick(&[9u16, 10, 3, 2, 1, 4, 30, 12]);
+            let cfg = Cfg { d: false, n: true, p: true, x: true, a: false, h };
+            let mut steps = vec![Step::AStart, Step::AConn, Step::MOpen(OpenP { asn: 65001, hold: *rng.pick(&[90u16, 10, 3]), ap: vec![], field: None })];
+            if i % 16 != 15 { steps.push(Step::MKeep); }
+            for _ in 0..rng.usize(2, 9) {
+                // mostly less than one hold time, sometimes between one and two (one tick queued, discarded by the reset),
+                // rarely two or more
+                let top = match rng.below(10) { 0 => 2 * h as u64 + 1, 1 | 2 | 3 => 2 * h as u64 - 1, _ => (h as u64 - 1).max(1) };
+                let mut w = rng.range(1, top.max(1));
+                while w > 0 { let d = w.min(60); steps.push(Step::Wait(d as u8)); w -= d; }
+                if rng.chance(1, 4) { steps.push(Step::Timer); }
+                steps.push(if rng.bool() { Step::MKeep } else { Step::MUpd(1) });
+            }
+            for _ in 0..rng.usize(0, 3) { steps.push(Step::Timer); }
+            v.push(show_line(&cfg, &FRESH, &steps));
+        }
         v
     }
 
@@ -1460,7 +1540,11 @@ impl Prop for C08 {
         if let Some((cfg, steps)) = parse_tick_line(line) { return show_outs(&run_tick(cfg, &steps)); }
         match parse_line(line) {
             None => "bad-op".into(),
-            Some((cfg, init, steps)) => show_outs(&run(cfg, init, &steps)),
+            Some((cfg, init, steps)) => {
+                let outs = run(cfg, init, &steps);
+                if reset_with_two_ticks(&cfg, &init, &steps, &outs) { return "bad-op".into(); }
+                show_outs(&outs)
+            }
         }
     }
 
@@ -1473,6 +1557,16 @@ impl Prop for C08 {
             if recs.contains("hang") { return Err("Session::tick() did not return on the peer's octets".into()); }
             if recs.split(" ; ").any(|r| r == "panic") { return Err("the peer's octets panic the session".into()); }
             if same != "1" { return Err("what the session does with the stream depends on how the peer's writes were split".into()); }
+            // (audit r5 S6a) every frame of the stream is answered by one tick, until a tick fails / the connection is gone:
+            // the expectation comes from the request line alone (RFC 4271 4.1 framing in `steps_of_stream`)
+            if let Some(steps) = steps_of_stream(&l) {
+                let outs = if recs == "-" { vec![] } else { parse_outs(recs).ok_or_else(|| format!("unreadable reply `{}`", recs))? };
+                let alive = match outs.last() { None => l.init.conn, Some(Out::Rec(r)) => r.ok && r.conn, Some(_) => false };
+                if outs.len() < steps.len() && alive {
+                    return Err(format!("the stream carries {} frame(s) / reads, the session answered {} and is still alive: `{}` was never handled",
+                        steps.len(), outs.len(), steps[outs.len()].show()));
+                }
+            }
             if recs == "-" { return Ok(()); }
             return match steps_of_stream(&l) {
                 None => Ok(()),
@@ -1489,6 +1583,8 @@ impl Prop for C08 {
         } else {
             match parse_line(line) { Some(x) => x, None => return Ok(()) }
         };
+        // a line refused after the run (`reset_with_two_ticks`)
+        if reply == "bad-op" { return Ok(()); }
         judge(cfg, init, steps, reply, tick_line)
     }
 
@@ -1512,6 +1608,11 @@ fn judge(cfg: Cfg, init: Init, steps: Vec<Step>, reply: &str, tick_line: bool) -
         let mut conn = init.conn;
         // ghost history for the Established clause (only meaningful from a fresh session)
         let forced = init != FRESH;
+        // (audit r5 S6e) the ghost history is known whenever the session is outside OpenConfirm / Established: a session
+        // forced into Idle .. OpenSent has accepted no OPEN yet (the hypothesis `h0` of `bytes_established_only_after_open_keepalive`)
+        let mut ghost_known = init.st < 5;
+        let mut t_crt = init.crt;
+        let mut cnt: Option<usize> = None;
         let mut open_accepted = false; // an OPEN from an allowed AS took the session to OpenConfirm, and it stayed there
         let (mut t_hold, mut t_ka) = (init.hold, init.ka); // hold / keepalive timer running before the step
         let mut room = PDU_CAP; // free slots of the application's outgoing queue at the start of a step (`q<room>`)
@@ -1620,8 +1721,19 @@ fn judge(cfg: Cfg, init: Init, steps: Vec<Step>, reply: &str, tick_line: bool) -
             } else if r.st != st && !matches!(step, Step::ReadErr(false)) {
                 return Err(format!("step {} `{}` is no FSM event but changed the state", i, step.show()));
             }
+            // (audit r5 S6b) a ROUTE-REFRESH is no FSM event (RFC 2918 section 4: ignored by a speaker that did not advertise the
+            // capability): the step is answered Ok and leaves everything as it was - state, connection, the four timers, the
+            // ConnectRetryCounter - and nothing is sent to the peer or handed to the application
+            let is_refresh = matches!(step, Step::MRefresh) || matches!(step, Step::Wire(inner) if **inner == Step::MRefresh);
+            if is_refresh {
+                let same = r.ok && r.st == st && r.conn == conn && r.hold == t_hold && r.ka == t_ka && r.dop == dop && r.crt == t_crt
+                    && cnt.map_or(true, |c| c == r.cnt) && r.outs.is_empty() && r.app.is_empty();
+                if !same {
+                    return Err(format!("step {} `{}` in {}: a ROUTE-REFRESH is no FSM event, the session must go on unchanged; got `{}`", i, step.show(), STATE_NAMES[st as usize], r.show()));
+                }
+            }
             // clause 3: Established only after an accepted OPEN from an allowed AS, then a KEEPALIVE
-            if r.st == 6 && st != 6 && !forced {
+            if r.st == 6 && st != 6 && ghost_known {
                 let ka = matches!(step, Step::MKeep | Step::Ev(17, None)) || matches!(step, Step::Wire(inner) if **inner == Step::MKeep);
                 if !(open_accepted && ka && st == 5) {
                     return Err(format!("step {} `{}`: Established entered from {} without accepted OPEN + KEEPALIVE", i, step.show(), STATE_NAMES[st as usize]));
@@ -1632,12 +1744,14 @@ fn judge(cfg: Cfg, init: Init, steps: Vec<Step>, reply: &str, tick_line: bool) -
                     Step::Ev(12, Some(o)) | Step::Ev(20, Some(o)) | Step::MOpen(o) => ALLOWED_ASNS.contains(&o.asn),
                     Step::Wire(inner) => matches!(&**inner, Step::MOpen(o) if ALLOWED_ASNS.contains(&o.asn)),
                     _ => false };
-                if !forced && !from_allowed {
+                if ghost_known && !from_allowed {
                     return Err(format!("step {} `{}`: OpenConfirm entered without an OPEN from an allowed AS", i, step.show()));
                 }
                 open_accepted = from_allowed;
+                ghost_known = true;
             } else if r.st != 5 && r.st != 6 {
                 open_accepted = false;
+                ghost_known = true;
             }
             // clause 4: an UPDATE reaches the application iff Established when it is processed
             let fwd = r.app.iter().filter(|a| a.starts_with('U')).count();
@@ -1672,6 +1786,8 @@ fn judge(cfg: Cfg, init: Init, steps: Vec<Step>, reply: &str, tick_line: bool) -
             conn = r.conn;
             t_hold = r.hold;
             t_ka = r.ka;
+            t_crt = r.crt;
+            cnt = Some(r.cnt);
         }
         Ok(())
     }
